@@ -34,7 +34,7 @@ ASSUMPTIONS = [
 ]
 REQUIRED_CLAUSES = ["failure-reaches-race-control", "never-success", "no-results-stored", "no-summary-printed", "bounded-time", "baseline-succeeds"]
 KINDS = ["http-abort", "http-400-abort", "refused-continue", "params-raise", "partition-raise", "runner-keyerror", "runner-exception", "store-raises",
-         "prepare-task-raises", "prepare-handler-raises", "worker-dies", "cancel", "timeout-abort", "http-status-abort"]
+         "prepare-task-raises", "prepare-handler-raises", "worker-dies", "cancel", "timeout-abort", "http-status-abort", "rc-store-raises"]
 REQUIRED_FEATURES = {"kind:" + k: 2 for k in KINDS}
 REQUIRED_FEATURES["driver-profiling-on"] = 5
 BUDGET = {"quick": {"cases": 1500, "seconds": 34}, "thorough": {"cases": 40000, "seconds": 700}}
@@ -73,7 +73,9 @@ def base_cases():
             {"tasks": [R("health-retries", {"operation-type": "cluster-health", "retries": 2, "retry-wait-period": 0.1, "retry-until-success": False}, iterations=2)]},
             {"tasks": [R("merge", {"operation-type": "force-merge", "index": "idx"})]},
             {"tasks": [R("search", {"operation-type": "search", "index": "idx", "body": {"query": {"match_all": {}}}}, iterations=2)]},
-            {"tasks": [R("raw", {"operation-type": "raw-request", "path": "/_verif/raw", "method": "GET"})]}]),
+            {"tasks": [R("raw", {"operation-type": "raw-request", "path": "/_verif/raw", "method": "GET"})]},
+            # asks with HEAD whether the index exists before deleting it: a HEAD answered with an error status is a failed request, too
+            {"tasks": [R("delete", {"operation-type": "delete-index", "index": "idx", "only-if-exists": True})]}]),
         dict(common, seed=104, cores=1, hosts=["localhost"], test_mode=False, delay="adversarial", elements=[
             {"tasks": [T("a", 1, base=2.0, warmup_time_period=0, time_period=70)]}, {"tasks": [T("b", 1, warmup_iterations=0, iterations=2)]}]),
     ]
@@ -125,7 +127,7 @@ class Injector:
             def script(rec):
                 out = inner(rec)
                 # every wire request of that logical request is answered with the status (the transport itself retries 429/502/503/504)
-                if rec["task"] == f["task"] and rec["client"] == f["phys_client"] and rec["logical"] == f["ordinal"]:
+                if rec["task"] == f["task"] and rec["client"] == f["phys_client"] and rec["logical"] == f["ordinal"] and f.get("only_method") in (None, rec["method"]):
                     if me.fired_at is None:
                         me.fired_at = k.clock.now
                     if f["status"] == "timeout":
@@ -176,6 +178,34 @@ class Injector:
 
             metrics.InMemoryMetricsStore._add = _add
             self._undo = lambda: setattr(metrics.InMemoryMetricsStore, "_add", orig)
+        elif kind == "rc-store-raises":
+            # race control's own metrics store fails while it takes over the samples of a finished task / of the whole benchmark, or while the
+            # final results are calculated. The benchmark itself may be over by then - the race is not: it must still end as failed.
+            target, when = f["call"].split("@")
+            origs = {"bulk_add": metrics.InMemoryMetricsStore.bulk_add, "flush": metrics.InMemoryMetricsStore.flush, "calculate_results": metrics.calculate_results}
+            seen = [0]
+
+            def make(name):
+                def wrapper(*a, **kw):
+                    if name == target and me.fired_at is None and k.current_proc is not None and k.current_proc.cls.__name__ == "BenchmarkActor" and k.current_msg == when:
+                        seen[0] += 1
+                        if seen[0] >= f.get("nth", 1):
+                            me.fired_at = k.clock.now
+                            me.detail = f["call"]
+                            raise IOError("verif: race control's metrics store is broken")
+                    return origs[name](*a, **kw)
+                return wrapper
+
+            metrics.InMemoryMetricsStore.bulk_add = make("bulk_add")
+            metrics.InMemoryMetricsStore.flush = make("flush")
+            metrics.calculate_results = make("calculate_results")
+
+            def undo_rc():
+                metrics.InMemoryMetricsStore.bulk_add = origs["bulk_add"]
+                metrics.InMemoryMetricsStore.flush = origs["flush"]
+                metrics.calculate_results = origs["calculate_results"]
+
+            self._undo = undo_rc
         elif kind in ("prepare-task-raises", "prepare-handler-raises"):
             orig = loader.DefaultTrackPreparator.on_prepare_track
 
@@ -321,7 +351,14 @@ def points_for(case, base_tr, rng, exhaustive):
     for j in req_points:
         e = logical[j]
         if e["task"] in real:
+            head = any(base_tr.sim.log[w]["method"] == "HEAD" for w in e["wire"])
+            if head:
+                # only the existence check (HEAD) is answered with an error status; 404 is its regular "no" and left out
+                for status in (401, 403, 500, 503):
+                    faults.append({"kind": "http-status-abort", "status": status, "only_method": "HEAD", "task": e["task"], "phys_client": e["client"], "client": runs[e["run"]]["index_in_task"], "ordinal": e["ordinal"]})
             for status in STATUSES:
+                if head and status == 404:
+                    continue
                 faults.append({"kind": "http-status-abort", "status": status, "task": e["task"], "phys_client": e["client"], "client": runs[e["run"]]["index_in_task"], "ordinal": e["ordinal"]})
     tasks = sorted({e["task"] for e in logical} - real)
     for t in (tasks if exhaustive else tasks[:1]):
@@ -329,6 +366,11 @@ def points_for(case, base_tr, rng, exhaustive):
     n_store = 4 * len(base_tr.rec.samples)
     for nth in (range(1, n_store + 1, 3) if exhaustive else [rng.randint(1, max(1, n_store))]):
         faults.append({"kind": "store-raises", "nth": nth})
+    for call in ("bulk_add@TaskFinished", "bulk_add@BenchmarkComplete", "flush@BenchmarkComplete", "calculate_results@BenchmarkComplete"):
+        if exhaustive or rng.random() < 0.3:
+            faults.append({"kind": "rc-store-raises", "call": call})
+    if exhaustive and len(case["elements"]) > 2:
+        faults.append({"kind": "rc-store-raises", "call": "bulk_add@TaskFinished", "nth": 2})
     faults.append({"kind": "prepare-task-raises"})
     faults.append({"kind": "prepare-handler-raises"})
     msg_points = range(1, n_msgs, 3) if exhaustive else [rng.randint(1, max(1, n_msgs - 1)) for _ in range(2)]
@@ -411,6 +453,8 @@ def one_fault(ctx, case, fault, origin, base_steps=None):
         ctx.case([case["seed"], fault], False, ())
         return
     sent = tr.benchmark_complete_sent_at
+    if fault["kind"] == "rc-store-raises":
+        sent = None  # never "too late": storing the final metrics and results is part of the race
     if not inj.was_fired or inj.too_late or (sent is not None and inj.fired_at is not None and sent <= inj.fired_at):
         # never reached (e.g. the request was not executed in this run) or after the benchmark had completed: excluded
         ctx.feature("fault-not-injected-or-too-late")
